@@ -1,6 +1,8 @@
 import DadiVerif.Model.ModelDSL
 import DadiVerif.Generated.Models
 import DadiVerif.Model.ModelPairs
+import DadiVerif.Model.ModelPerm
+import DadiVerif.Model.ModelUnits
 /- driver ops for the library-model table (C15).  Every op runs the definitions the theorems are about
    (ModelDSL.exec / canonTr / wellFormed / normalForm / nestOK / swapOK) on the generated table.
    c15.table                      -> ok <json [[name,[paramNames],[argNames]],...]>
@@ -16,6 +18,12 @@ import DadiVerif.Model.ModelPairs
    c15.branchpairs                -> ok <json [[A,[argsA…],[path 1|0…],B,[argsB…],nestOKAt 1|0,[[op,lhs,rhs,outcome]…]],…]>
    c15.wiring <model>             -> ok <wiringOK 1|0> <number of branches>   (symbolic run at the model's own parameters)
    c15.swap <A> <args>            -> ok 1|0
+   c15.permsym                    -> ok <json [[A,[perm…],[arg Expr…],permOK 1|0],…]>        (hand table Pairs.permSymmetric)
+   c15.perm <A> <perm> <args>     -> ok 1|0            (permOK; <perm> = dot separated images, e.g. 0.2.1)
+   c15.units <model>              -> ok <json {"lenient":1|0,"strict":1|0,"refexplicit":1|0,
+                                                "errors":[[fn,kw,Expr,unit found,unit expected],…]   (reference-size convention)
+                                                "refsites":[[fn,kw],…]}>                             (refSites)
+   c15.kwunits                    -> ok <json [[fn,[[kw,expected unit|null],…]],…]>   (kwExpected on every generated signature)
    <args>: `-` (empty) or comma separated: `name` (a parameter), `#n/d` or `#-n/d` (an exact literal).
    json: Expr = ["p",name] | ["t"] | ["lit",n,d] | ["sym",s] | ["neg",e] | [op,a,b] | ["call",f,e] | ["lam",b] | ["app",f,a] | ["tup",e…]
          Call = {"fn":…,"args":[[k,e],…]}   Tr = {"start":c,"steps":[c…],"fin":c} | {"if":[op,l,r],"then":t,"else":t} -/
@@ -84,8 +92,54 @@ def parseArgs (s : String) : Option (List Expr) :=
 def kindStr : Kind → String
   | .start => "start" | .step => "step" | .finish => "finish"
 
+def showU (u : U) : String :=
+  let part (n : String) (e : Int) : List String := if e == 0 then [] else if e == 1 then [n] else [n ++ "^" ++ toString e]
+  let l := part "Size" u.size ++ part "Time" u.time ++ part "Rate" u.rate ++ part "Sel" u.sel ++ part "Theta" u.theta
+  if l.isEmpty then "dimensionless" else "*".intercalate l
+
+def showUT : Option UT → String
+  | some .poly => "any (zero)"
+  | some (.u x) => showU x
+  | none => "not a well-united number"
+
+def showKw (r : Bool) : Option KwKind → String
+  | some (.num u) => showU (u.ref r)
+  | some .tupleDimless => "tuple of dimensionless numbers"
+  | some .other => "not a number (density, grid, flag, id)"
+  | none => "unclassified keyword"
+
+def parsePerm (s : String) : Option (List Nat) := (s.splitOn ".").mapM (·.toNat?)
+
+def jErr (r : Bool) (x : UnitErr) : String :=
+  arr [qn x.fn, qn x.kw, jE x.e,
+       q (if x.kw == nm! "if" then "the two sides have different units" else showUT (argUnit r x.e)),
+       q (if x.kw == nm! "if" then "equal units" else showKw r (kwExpected x.kw))]
+
 def handle (toks : List String) : Option String :=
   match toks with
+  | ["c15.permsym"] =>
+      some ("ok " ++ arr (Pairs.permSymmetric.map fun p =>
+        arr [qn p.name, arr (p.perm.map toString), arr (p.args.map jE),
+             if permOK table sigs permRules permPairs permFin p.name p.perm p.args then "1" else "0"]))
+  | ["c15.perm", a, pi, as] => do
+      let as ← parseArgs as
+      let pi ← parsePerm pi
+      some (if permOK table sigs permRules permPairs permFin (encodeName a) pi as then "ok 1" else "ok 0")
+  | ["c15.units", m] =>
+      match findModel table (encodeName m) with
+      | none => some "err unknown-model"
+      | some md =>
+        match symbolicRun table sigs md.name (md.paramNames.map .param) with
+        | none => some "err stuck"
+        | some t =>
+          let b (x : Bool) : String := if x then "1" else "0"
+          some ("ok {" ++ q "lenient" ++ ":" ++ b (unitsTr true t) ++ "," ++ q "strict" ++ ":" ++ b (unitsTr false t) ++ ","
+                ++ q "refexplicit" ++ ":" ++ b (unitsTr false (refExplicit t)) ++ ","
+                ++ q "errors" ++ ":" ++ arr ((unitErrors true t).map (jErr true)) ++ ","
+                ++ q "refsites" ++ ":" ++ arr ((refSites table sigs md).map fun p => arr [qn p.1, qn p.2]) ++ "}")
+  | ["c15.kwunits"] =>
+      some ("ok " ++ arr (sigs.map fun s => arr [qn s.fn, arr (s.params.map fun (k, _) =>
+              arr [qn k, match kwExpected k with | some kk => q (showKw false (some kk)) | none => "null"])]))
   | ["c15.table"] =>
       some ("ok " ++ arr (table.map fun m => arr [qn m.name, jStrs m.paramNames, jStrs m.argNames]))
   | ["c15.ms"] =>
